@@ -229,7 +229,9 @@ CHECKS = {
              'after every step the position of every thread, the receiver of the out-event, replies, the number of critical '
              'sections per step and (at the end) that Select/Deselect cannot proceed while a delivery holds the lock are '
              'compared with the model. The strict property is evaluated on the model and on every real execution; divergences '
-             'must match H or I.',
+             'must match H or I. The replay first determines which design of the model the code conforms to (shipped, or '
+             'Deselect-by-identity = H repaired) and model-checks that one; the thorough tier also replays the 6120 schedules of '
+             'the three-client state cover. Log lines are passed through (their number and wording are free).',
         design='3/C11',
         note=BASE_TRUST + 'Interleavings are explored at the granularity of the yield points; finer ones only by the '
              'ThreadSanitizer stress run (3 clients, free-running dispatcher). Trusted: mock runtime with threaded pump, the '
